@@ -133,6 +133,7 @@ type harnessRun struct {
 	funcs       map[string]exec.FuncCov
 	errors      []string
 	overBudget  bool
+	budgetStop  bool // several paths ran into the step or depth budget: exploration was cut short
 	wall        time.Duration
 	started     time.Time
 }
@@ -164,7 +165,7 @@ func explore(pkg string, runs []*harnessRun, logf func(string, ...interface{})) 
 		// pick the harness with queued prefixes and fewest inflight jobs
 		var best *harnessRun
 		for _, r := range runs {
-			if len(r.queue) == 0 || r.overBudget {
+			if len(r.queue) == 0 || r.overBudget || r.budgetStop {
 				continue
 			}
 			if best == nil || r.inflight < best.inflight {
@@ -182,7 +183,7 @@ func explore(pkg string, runs []*harnessRun, logf func(string, ...interface{})) 
 	}
 	allDone := func() bool {
 		for _, r := range runs {
-			if r.inflight > 0 || (len(r.queue) > 0 && !r.overBudget) {
+			if r.inflight > 0 || (len(r.queue) > 0 && !r.overBudget && !r.budgetStop) {
 				return false
 			}
 		}
@@ -307,6 +308,18 @@ func (r *harnessRun) absorb(res exec.JobResult) {
 		r.unsupported[k] += v
 	}
 	r.findings = append(r.findings, res.Findings...)
+	// every path that runs into the step or depth budget costs the whole budget; a few of them
+	// are enough to report (each is a non-termination candidate that is confirmed natively),
+	// the rest of the universe is then left unexplored and the run cannot end as a pass
+	nb := 0
+	for _, f := range r.findings {
+		if f.Kind == "budget" {
+			nb++
+		}
+	}
+	if nb >= 4 {
+		r.budgetStop = true
+	}
 	if len(r.samples) < 24 {
 		r.samples = append(r.samples, res.Samples...)
 	}
